@@ -73,6 +73,8 @@ STRENGTHENED = {
  "C07-g": "after injected execution faults (HistoryDB.ParseBlock fails after Unspents.ProcessBlock ran, the database transaction rolls back) preceded real executions of the same block (AddressCount is part of the digest)",
  "C22-g": "after streams legal under a limit at the length of one of their messages were run through the real readLoop with reads ending 1-4 bytes before the end of each frame",
  "C19-g": "after temporary-first orders (temp then twin, unload, third and fourth create) were added for every seeded wallet type",
+ "C27-g": "after 17 proxy / override header variants (X-Forwarded-Host, Forwarded, X-Real-IP, X-Forwarded-Proto, X-HTTP-Method-Override, ...) that must not change any verdict were added to the one-deviation sweeps",
+ "C28-g": "after one of two conflicting pending spends was confirmed in a block (new op: the publisher executes a block of named pool transactions, no refresh) before the pool-dependent views were queried",
  "C07-b": "after the balance view (GetBalanceOfAddresses) joined the whole-state digest and the model",
 }
 rows = []
